@@ -259,7 +259,7 @@ class Gen:
             ms.append(("field", ("id", "o"), r.random() < 0.3, r.choice([1, 1, 2]), self.O(d - 1, sc2, True)))
         if r.random() < 0.1:
             p = self.fresh("p")
-            ms.append(("ffunc", ("id", "m"), [("param", p, None)], r.choice([1, 2]), self.N(d - 1, sc2 + [(p, "N")], True)))
+            ms.append(("ffunc", ("id", "m"), [("param", p, None)], 2, self.N(d - 1, sc2 + [(p, "N")], True)))
         if with_asserts and r.random() < 0.12:
             ms.append(("massert", ("bin", ">=", self.N(d - 1, sc2, True), num(0)), s("inv-%d" % r.randint(0, 9)) if r.random() < 0.7 else None))
         for v in locals_:
